@@ -861,7 +861,7 @@ fn bytes_to_signed_peer<T: AsRef<[u8]>>(
 ) -> Result<([u8; 32], u64, [u8; 64]), DecodeMessageError> {
     let bytes = bytes.as_ref();
 
-    if !bytes.len().is_multiple_of(104) {
+    if bytes.len() != 104 {
         return Err(DecodeMessageError::InvalidSignedPeersEncodingLength);
     }
 
